@@ -96,6 +96,10 @@ class OrderMonitor:
                    f'{_case_str(case)} on {_fmt(before)}: expected {_fmt(e.alts[0])} got {_fmt(after)}')
 
 
+def W_any(obs):
+    return bool(obs.warns)
+
+
 # ================================================================ C05
 def mon_unchanged_on_raise(ctx, res):
     obs = ctx.obs
@@ -181,8 +185,13 @@ def mon_nothing_skipped(ctx, res):
     if obs.phase != 'merge' and obs.exc is not None:
         return
     if obs.exc is not None:
-        # a raise is an allowed signal (builtin exceptions are C12's business, a raise on a
-        # fully applicable message is C01/C02's)
+        # a MosMergeError is an allowed signal (a raise on a fully applicable message is C01/C02's business).  Anything
+        # else leaving the merge of a message that owes a signal is neither of the two reports the statement allows
+        # (C12 reports the exception type as such)
+        if e.must_signal and not obs.merge_error and not W_any(obs):
+            yield (f'{kind}:{e.note}:neither-warning-nor-MosMergeError:{obs.exc}',
+                   f'{_case_str(case)} on {_fmt(ctx.seq_before)}: an unresolvable / duplicate element is reported neither by a warning nor by '
+                   f'MosMergeError - the merge ended with {obs.exc} ({obs.exc_msg})')
         return
     before, after = ctx.seq_before, ctx.seq_after
     W = Counter(obs.warns)
